@@ -96,7 +96,7 @@ def run_pipeline(tier, seed, log):
     if len(scheds) > cap:
         scheds = random.Random(seed).sample(scheds, cap)
     scheds += random_schedules(3000 if tier == "thorough" else 500, seed)
-    with mp.get_context("fork").Pool(common.NCPU, initializer=common.freeze_heap) as pool:
+    with common.frozen_heap(), mp.get_context("fork").Pool(common.NCPU) as pool:
         out = pool.map(_exec, scheds, chunksize=64)
     bad = [r for r in out if not r["ok"]]
     good = [(s, r) for s, r in zip(scheds, out) if r["ok"]]
